@@ -15,5 +15,9 @@ func TestWorker(t *testing.T) {
 	kernel.WorkerMain(t, map[string]kernel.CheckFn{
 		"C15": checkC15,
 		"C17": checkC17,
+		"C13": checkC13,
+		"C14": checkC14,
+		"C16": checkC16,
+		"C19": checkC19,
 	})
 }
